@@ -12,13 +12,14 @@ import (
 	"verif/harness/c17"
 	"verif/harness/core"
 	g "verif/harness/dnsgen"
+	"verif/harness/dnsimpl"
 	"verif/harness/dnsops"
 )
 
 var Runner = core.Runner{Gen: Gen, Eval: dnsops.Eval}
 
 func add(c *core.Ctx, class, line string) {
-	if cs := dnsops.Eval(c, line); cs != nil {
+	if cs := dnsops.Eval(c, line); cs != nil && !dnsimpl.Skipped(cs.Impl) {
 		cs.Class = class
 		c.Add(*cs)
 	}
@@ -40,7 +41,7 @@ func hexList(ss ...string) string {
 // Gen is the C08dns run.
 func Gen(c *core.Ctx) {
 	r := c.Rnd
-	c.Res.Rule = "mdns/nbns/dns.process: protocol-aware messages from the independent builder (every record type the handlers distinguish, in every section, plain / compressed / pointer chains, queries and responses) closed under truncation at every offset, count / RDLENGTH / pointer / label-length corruption and random mutation; nbns.names / nbns.decode: arrays and names around every length boundary; ssdp.cc / ssdp: cache-control values of every split shape and raw NOTIFY / M-SEARCH / response payloads with truncation and mutation; dns.name / dns.question / dns.rrs on the same malformed streams. Every call under a 2 s watchdog with panic recovery. distinct = distinct protocol lines; non-trivial = the payload has at least a DNS header (12 bytes) / passes the first length test"
+	c.Res.Rule = "mdns/nbns/dns.process: protocol-aware messages from the independent builder (every record type the handlers distinguish, in every section, plain / compressed / pointer chains, queries and responses) closed under truncation at every offset, count / RDLENGTH / pointer / label-length corruption and random mutation; nbns / nbns.names / nbns.decode: node status RDATA, arrays and names around every length boundary (RDLENGTH 18n-18 … 18n+2, 18n+47; exact-capacity and roomy backing arrays); after every dns.process / mdns / nbns / ssdp call the same handler is probed (DNSFind, DNSExist, an empty response) under the same watchdog, malformed-then-well-formed sequences on one handler; ssdp.cc / ssdp: cache-control values of every split shape and raw NOTIFY / M-SEARCH / response payloads with truncation and mutation; dns.name / dns.question / dns.rrs on the same malformed streams. Every call under a 2 s watchdog with panic recovery. distinct = distinct protocol lines; non-trivial = the payload has at least a DNS header (12 bytes) / passes the first length test"
 	for _, l := range c.CorpusLines() {
 		add(c, "corpus", l)
 	}
@@ -151,6 +152,18 @@ func Gen(c *core.Ctx) {
 	}
 	for i, n := 0, c.Scale(300, 12000); i < n; i++ {
 		full("nbns", g.Build(g.RandNBNS(r), g.Opts{Compress: r.Intn(2) == 0}), i, false)
+	}
+	c17.NBNSBoundary(c)
+	// a malformed message must leave the handler usable (every dns.process / mdns / nbns / ssdp case ends with
+	// a probe of the same handler; here: malformed first, then well-formed messages on the same handler)
+	for i, n := 0, c.Scale(200, 8000); i < n; i++ {
+		qn := g.HostName(r, []string{"example.com", "local"}[r.Intn(2)])
+		b := g.Build(c17.RandResponse(r, qn, ipPool), g.Opts{Compress: r.Intn(2) == 0})
+		b2 := g.Build(c17.RandResponse(r, qn, ipPool), g.Opts{Compress: r.Intn(2) == 0})
+		cs := c17.Corruptions(r, b, false)
+		add(c, "dns-seq-bad-first", "dns.process "+core.Hex(cs[r.Intn(len(cs))])+" "+core.Hex(b2.Bytes))
+		add(c, "dns-seq-bad-first", "dns.process "+core.Hex(b.Bytes[:len(b.Bytes)-1-r.Intn(len(b.Bytes)/2)])+" "+core.Hex(b2.Bytes))
+		add(c, "dns-seq-bad-first", "dns.process "+core.Hex(c17.Mutate(r, b.Bytes))+" "+core.Hex(b2.Bytes))
 	}
 	// node name arrays around the boundaries n*16+2 and n*18
 	for n := 0; n <= 6; n++ {
